@@ -59,6 +59,7 @@ META = {
 
 
 def setup(engine):
+    _ENGINE[0] = engine
     if engine == "chx":
         from vf.stubs.common import text_stubs
         from vf.stubs.vmfstubs import stub_copyset
@@ -355,7 +356,7 @@ def _snap_diff(a, b, path=""):
     return f"{path}: {a!r} != {b!r}"[:600]
 
 
-def complete_and_independent(src, cp, mi, on_copy, what, lo=-1, hi=10 ** 9, exports=(True,), check_complete=True, disjoint=True):
+def complete_and_independent(src, cp, mi, on_copy, what, lo=-1, hi=10 ** 9, exports=(True,), check_complete=True, disjoint=True, fast=False):
     """The shared body: completeness, disjointness, one mutation chosen by symbolic index, independence."""
     assume(lo <= mi)
     assume(mi < hi)
@@ -372,15 +373,36 @@ def complete_and_independent(src, cp, mi, on_copy, what, lo=-1, hi=10 ** 9, expo
     victim, other = (cp, src) if on_copy else (src, cp)
     ms = mutators(victim)
     path, target, fn = pick(ms, mi)
-    before_snap = snap(other)
-    before_exp = [_export(other, mb) for mb in exports]
-    fn(target)
-    side_name = "source" if on_copy else "copy"
-    after = snap(other)
-    if after != before_snap:
-        raise Fail(f"{what}: mutating {'copy' if on_copy else 'source'}{path} changed the {side_name} at {_snap_diff(before_snap, after)}")
-    for mb, exp in zip(exports, before_exp):
-        _same_pieces(exp, _export(other, mb), f"{what}: mutating {'copy' if on_copy else 'source'}{path} changed the export of the {side_name}")
+    vname, oname = ("copy", "source") if on_copy else ("source", "copy")
+
+    def body():
+        before_snap = snap(other)
+        before_exp = [_export(other, mb) for mb in exports]
+        fn(target)
+        after = snap(other)
+        if after != before_snap:
+            return f"{what}: mutating {vname}{path} changed the {oname} at {_snap_diff(before_snap, after)}"
+        for mb, exp in zip(exports, before_exp):
+            now = _export(other, mb)
+            if now != exp:
+                return f"{what}: mutating {vname}{path} changed the export of the {oname}: {_first_diff(exp, now)}"
+        return None
+    msg = _untraced(body) if fast else body()
+    if msg:
+        raise Fail(msg)
+
+
+_ENGINE = [None]
+
+
+def _untraced(fn):
+    """Independence slices pass every leaf concretely: after the mutator has been picked nothing is symbolic, so the oracle (snapshots,
+    exports) and the mutation run natively."""
+    if _ENGINE[0] == "chx":
+        from crosshair.tracers import NoTracing
+        with NoTracing():
+            return fn()
+    return fn()
 
 
 # ------------------------------------------------------------------------------------------ skeleton builders
@@ -506,7 +528,7 @@ TIMES = [-1, 1, 0, 7, 2 ** 31]
 INTS = [16, 0, 2 ** 31]
 
 
-def h_output(s: str, ti: int, comma: bool, mi: int, on_copy: bool, n: int, slot: str, form: int = 0) -> None:
+def h_output(s: str, ti: int, comma: bool, mi: int, on_copy: bool, n: int, slot: str, form: int = 0, lo: int = -1, hi: int = 10 ** 9, fast: bool = False) -> None:
     """Output.copy(): every field survives (times by index from TIMES), export identical; one mutation of either side is invisible on the
     other."""
     assume(len(s) == n)
@@ -514,11 +536,11 @@ def h_output(s: str, ti: int, comma: bool, mi: int, on_copy: bool, n: int, slot:
     o.comma_sep = comma
     c = o.copy()
     check(c is not o, "Output.copy() returned the same object")
-    complete_and_independent(o, c, mi, on_copy, "Output.copy()")
+    complete_and_independent(o, c, mi, on_copy, "Output.copy()", lo, hi, fast=fast)
 
 
-def h_output_w(s: str, ti: int, comma: bool, mi: int, on_copy: bool, n: int, slot: str, form: int = 0) -> None:
-    h_output(s, ti, comma, mi, on_copy, n, slot, form)
+def h_output_w(s: str, ti: int, comma: bool, mi: int, on_copy: bool, n: int, slot: str, form: int = 0, lo: int = -1, hi: int = 10 ** 9, fast: bool = False) -> None:
+    h_output(s, ti, comma, mi, on_copy, n, slot, form, lo, hi, fast)
     assume(mi >= 0)
     raise Fail("reached")
 
@@ -549,7 +571,7 @@ def _copy_solidlike(obj, m2, mapping):
 
 
 def h_side(s: str, li: int, mi: int, on_copy: bool, n: int, kind: str = "plain", other: bool = False, lo: int = -1, hi: int = 10 ** 9,
-           power: int = 1, mb: int = 1, both_exports: bool = False, sm: int = 5) -> None:
+           power: int = 1, mb: int = 1, both_exports: bool = False, sm: int = 5, fast: bool = False) -> None:
     """Side.copy(): plain face, face with Strata point data, displacement face (alpha, multiblend, allowed verts, triangle tags)."""
     import srctools.vmf as vmf
     assume(len(s) == n)
@@ -566,18 +588,18 @@ def h_side(s: str, li: int, mi: int, on_copy: bool, n: int, kind: str = "plain",
     c = _copy_solidlike(side, m2, mapping)
     check(mapping == {side.id: c.id}, "Side.copy(): side_mapping not updated with old -> new", mapping)
     check(c.map is (m2 or m), "Side.copy(): copy belongs to the wrong map")
-    complete_and_independent(side, c, mi, on_copy, f"Side.copy()[{kind}]", lo, hi, exports=(True, False) if both_exports else (True,))
+    complete_and_independent(side, c, mi, on_copy, f"Side.copy()[{kind}]", lo, hi, exports=(True, False) if both_exports else (True,), fast=fast)
 
 
 def h_side_w(s: str, li: int, mi: int, on_copy: bool, n: int, kind: str = "plain", other: bool = False, lo: int = -1, hi: int = 10 ** 9,
-             power: int = 1, mb: int = 1, both_exports: bool = False, sm: int = 5) -> None:
-    h_side(s, li, mi, on_copy, n, kind, other, lo, hi, power, mb, both_exports, sm)
+             power: int = 1, mb: int = 1, both_exports: bool = False, sm: int = 5, fast: bool = False) -> None:
+    h_side(s, li, mi, on_copy, n, kind, other, lo, hi, power, mb, both_exports, sm, fast)
     assume(mi >= 0)
     raise Fail("reached")
 
 
 def h_solid(s: str, li: int, hidden: bool, vs: bool, cordon: bool, mi: int, on_copy: bool, n: int, kind: str = "wedge", other: bool = False,
-            keep_vis: bool = True, lo: int = -1, hi: int = 10 ** 9, power: int = 1, mb: int = 1) -> None:
+            keep_vis: bool = True, lo: int = -1, hi: int = 10 ** 9, power: int = 1, mb: int = 1, fast: bool = False) -> None:
     """Solid.copy(): wedge / prism with point data / brush with a displacement face; group, visgroups, colour, flags."""
     assume(len(s) == n)
     lm = pick(INTS, li)
@@ -593,12 +615,12 @@ def h_solid(s: str, li: int, hidden: bool, vs: bool, cordon: bool, mi: int, on_c
         # documented: visibility information is dropped; everything else must still be complete
         check(c.visgroup_ids == set() and not c.hidden and c.vis_shown and c.vis_auto_shown, "Solid.copy(keep_vis=False) kept visibility data")
         c.visgroup_ids, c.hidden, c.vis_shown, c.vis_auto_shown = set(sol.visgroup_ids), sol.hidden, sol.vis_shown, sol.vis_auto_shown
-    complete_and_independent(sol, c, mi, on_copy, f"Solid.copy()[{kind}]", lo, hi)
+    complete_and_independent(sol, c, mi, on_copy, f"Solid.copy()[{kind}]", lo, hi, fast=fast)
 
 
 def h_solid_w(s: str, li: int, hidden: bool, vs: bool, cordon: bool, mi: int, on_copy: bool, n: int, kind: str = "wedge", other: bool = False,
-              keep_vis: bool = True, lo: int = -1, hi: int = 10 ** 9, power: int = 1, mb: int = 1) -> None:
-    h_solid(s, li, hidden, vs, cordon, mi, on_copy, n, kind, other, keep_vis, lo, hi, power, mb)
+              keep_vis: bool = True, lo: int = -1, hi: int = 10 ** 9, power: int = 1, mb: int = 1, fast: bool = False) -> None:
+    h_solid(s, li, hidden, vs, cordon, mi, on_copy, n, kind, other, keep_vis, lo, hi, power, mb, fast)
     assume(mi >= 0)
     raise Fail("reached")
 
@@ -606,7 +628,7 @@ def h_solid_w(s: str, li: int, hidden: bool, vs: bool, cordon: bool, mi: int, on
 # ------------------------------------------------------------------------------------------ harnesses: Entity
 
 def h_entity(s: str, ti: int, hidden: bool, vs: bool, mi: int, on_copy: bool, n: int, slot: str = "value", brush: str = "", other: bool = False,
-             in_map: bool = False, ks: int = 0, lo: int = -1, hi: int = 10 ** 9) -> None:
+             in_map: bool = False, ks: int = 0, lo: int = -1, hi: int = 10 ** 9, fast: bool = False) -> None:
     """Entity.copy(): keys, fixups, outputs (arbitrary `times`), solids (optionally a displacement brush), editor data."""
     assume(len(s) == n)
     if slot == "logical_pos":
@@ -624,17 +646,17 @@ def h_entity(s: str, ti: int, hidden: bool, vs: bool, mi: int, on_copy: bool, n:
     if in_map:
         (m2 or m).add_ent(c)
     check(c.map is (m2 or m), "Entity.copy(): copy belongs to the wrong map")
-    complete_and_independent(e, c, mi, on_copy, "Entity.copy()", lo, hi)
+    complete_and_independent(e, c, mi, on_copy, "Entity.copy()", lo, hi, fast=fast)
 
 
 def h_entity_w(s: str, ti: int, hidden: bool, vs: bool, mi: int, on_copy: bool, n: int, slot: str = "value", brush: str = "", other: bool = False,
-               in_map: bool = False, ks: int = 0, lo: int = -1, hi: int = 10 ** 9) -> None:
-    h_entity(s, ti, hidden, vs, mi, on_copy, n, slot, brush, other, in_map, ks, lo, hi)
+               in_map: bool = False, ks: int = 0, lo: int = -1, hi: int = 10 ** 9, fast: bool = False) -> None:
+    h_entity(s, ti, hidden, vs, mi, on_copy, n, slot, brush, other, in_map, ks, lo, hi, fast)
     assume(mi >= 0)
     raise Fail("reached")
 
 
-def h_fixup(s: str, form: int, mi: int, on_copy: bool, n: int) -> None:
+def h_fixup(s: str, form: int, mi: int, on_copy: bool, n: int, lo: int = -1, hi: int = 10 ** 9, fast: bool = False) -> None:
     """EntityFixup duplicates: EntityFixup(copy_values()), copy.copy, copy.deepcopy - editing a variable of one side must not show on the other."""
     import copy
     import srctools.vmf as vmf
@@ -650,12 +672,12 @@ def h_fixup(s: str, form: int, mi: int, on_copy: bool, n: int) -> None:
     if f == 1:      # a shallow copy: only the mapping surface (fx[var] = value, del, new variable) has to be independent
         assume(mi <= 0)
     complete_and_independent(fx, c, mi, on_copy, ["EntityFixup(copy_values())", "copy.copy(EntityFixup)", "copy.deepcopy(EntityFixup)"][f],
-                             disjoint=f != 1)
+                             lo, hi, disjoint=f != 1, fast=fast)
 
 
 # ------------------------------------------------------------------------------------------ harnesses: VisGroup / EntityGroup
 
-def h_visgroup(s: str, mi: int, on_copy: bool, n: int, depth: int = 1, other: bool = False) -> None:
+def h_visgroup(s: str, mi: int, on_copy: bool, n: int, depth: int = 1, other: bool = False, lo: int = -1, hi: int = 10 ** 9, fast: bool = False) -> None:
     import srctools.vmf as vmf
     from srctools.math import Vec
     assume(len(s) == n)
@@ -672,7 +694,7 @@ def h_visgroup(s: str, mi: int, on_copy: bool, n: int, depth: int = 1, other: bo
     check(mapping == {a.id: b.id for a, b in zip(src_objs, cp_objs)}, "VisGroup.copy(): group_mapping is not old -> new for every group", mapping)
     for g in cp_objs:
         check(g.vmf is (m2 or m), "VisGroup.copy(): a copied group belongs to the wrong map", g.name)
-    complete_and_independent(top, c, mi, on_copy, "VisGroup.copy()")
+    complete_and_independent(top, c, mi, on_copy, "VisGroup.copy()", lo, hi, fast=fast)
 
 
 def h_group(shown: bool, auto: bool, mi: int, on_copy: bool, other: bool = False) -> None:
@@ -704,12 +726,14 @@ def _kv_trees(slot, s):
     return a, b_kids
 
 
-def h_keyvalues(s: str, mi: int, which: int, n: int, slot: str, op: str) -> None:
+def h_keyvalues(s: str, mi: int, which: int, n: int, slot: str, op: str, lo: int = -1, hi: int = 10 ** 9) -> None:
     """Keyvalues.copy / + / += / extend: operands documented as unchanged stay snapshot-equal; the result has exactly the expected contents;
     result and operands share no node; one mutation (every node of the victim, by symbolic index) of result/left/right leaves the others alone."""
     import warnings
     from srctools.keyvalues import Keyvalues
     assume(len(s) == n)
+    assume(lo <= mi)
+    assume(mi < hi)
     a, b_kids = _kv_trees(slot, s)
     if op.endswith("_root"):
         b = Keyvalues.root(*b_kids)
@@ -763,8 +787,8 @@ def h_keyvalues(s: str, mi: int, which: int, n: int, slot: str, op: str) -> None
         check(after == before, f"Keyvalues {op}: mutating {vname}{path} changed the {nm} operand at {_snap_diff(before, after)}")
 
 
-def h_keyvalues_w(s: str, mi: int, which: int, n: int, slot: str, op: str) -> None:
-    h_keyvalues(s, mi, which, n, slot, op)
+def h_keyvalues_w(s: str, mi: int, which: int, n: int, slot: str, op: str, lo: int = -1, hi: int = 10 ** 9) -> None:
+    h_keyvalues(s, mi, which, n, slot, op, lo, hi)
     assume(mi >= 0)
     raise Fail("reached")
 
@@ -981,9 +1005,12 @@ def _ranges(total, width):
     return [(lo, min(lo + width, total)) for lo in range(0, total, width)]
 
 
-def _count(kind_fn):
-    """Number of mutators of a skeleton, computed natively so that slices partition exactly [0, n)."""
-    return len(mutators(kind_fn()))
+CONC = 'm/x "q"'      # concrete leaf used by the independence slices (a quote and a space: awkward for every writer)
+
+
+def _indep(base, total, width):
+    """Independence slices: every leaf concrete, the mutator index (within [lo, hi)) and the mutated side symbolic."""
+    return [dict(base, lo=lo, hi=hi) for lo, hi in _ranges(total, width)]
 
 
 def obligations(tier):
@@ -991,21 +1018,24 @@ def obligations(tier):
     q = tier == "quick"
     lens = [0, 1] if q else [0, 1, 2]
     obls = []
+    C = {"lo": -1, "hi": 0}      # completeness slices: leaves symbolic, no mutation
 
     # --- Output
-    sl = [{"n": n, "slot": slot, "form": form} for n in lens for slot, form in
-          [("output", 0), ("target", 0), ("input", 1), ("params", 1), ("inst_out", 2), ("inst_in", 3), ("params", 4)]]
-    if not q:
-        sl += [{"n": 1, "slot": slot, "form": 4} for slot in OUT_SLOTS]
+    combos = [("output", 0), ("target", 0), ("input", 1), ("params", 1), ("inst_out", 2), ("inst_in", 3), ("params", 4)]
+    sl = [dict(C, n=n, slot=slot, form=form, ti=ti) for n in lens for slot, form in combos for ti in ([3] if q else range(len(TIMES)))
+          if not (q and n == 0 and slot not in ("target", "inst_out"))]
+    sl += [{"s": CONC, "n": len(CONC), "ti": ti, "comma": c, "slot": "params", "form": f, "lo": 0, "hi": 9}
+           for f in range(len(OUT_FORMS)) for ti, c in ((3, False), (1, True))]
     obls.append(Obl("output", MOD, "h_output", slices=sl, budget_s=600, per_path_s=60,
-                    desc="Output.copy(): symbolic str leaf, times by index, symbolic comma_sep; complete; one mutation invisible on the other side",
-                    bound="one str leaf of exact length, times from [-1,1,0,7,2**31]"))
+                    desc="Output.copy(): symbolic str leaf, times by index, symbolic comma_sep: complete (fields + export); one mutation of "
+                         "either side invisible on the other", bound="one str leaf of exact length, times from [-1,1,0,7,2**31]"))
     obls.append(Obl("output_fields", MOD, "h_output_fields", slices=[{"n": 1, "slot": "params", "form": f} for f in range(len(OUT_FORMS))],
                     budget_s=600, per_path_s=60, desc="Output.copy() field for field for every integer times (and only_once)", bound="all ints"))
-    obls.append(Obl("output.witness", MOD, "h_output_w", slices=[{"n": 1, "slot": "target", "form": 0}], budget_s=120, per_path_s=60, witness=True))
+    obls.append(Obl("output.witness", MOD, "h_output_w", slices=[{"n": 1, "slot": "target", "form": 0, "ti": 3, "lo": 0, "hi": 1}], budget_s=120,
+                    per_path_s=60, witness=True))
 
     # --- Side
-    def side_slices(kind, n_list, power=1, mb=1, width=40, both=False, others=(False, True)):
+    def side_total(kind, power=1, mb=1):
         m = vmf.VMF()
         if kind == "disp":
             probe = _mk_disp(m, power, mb)
@@ -1013,96 +1043,100 @@ def obligations(tier):
             probe = _mk_side(m, WEDGE[1], "x", 11, k=1)
             if kind == "points":
                 probe.strata_points = [_vec(2), _vec(5), _vec(6), _vec(9)]
-        total = len(mutators(probe))
-        out = []
-        for n in n_list:
-            for other in others:
-                out.append({"n": n, "kind": kind, "other": other, "lo": -1, "hi": 0, "power": power, "mb": mb, "both_exports": both})
-                for lo, hi in _ranges(total, width):
-                    out.append({"n": n, "kind": kind, "other": other, "lo": lo, "hi": hi, "power": power, "mb": mb, "both_exports": both})
-        return out
-    sl = side_slices("plain", lens) + side_slices("points", [1])
+        return len(mutators(probe))
+    sl = []
+    for kind in ("plain", "points"):
+        for other in (False, True):
+            sl += [dict(C, n=n, kind=kind, other=other) for n in (lens if kind == "plain" else [1])]
+            sl += _indep({"s": CONC, "n": len(CONC), "li": 2, "kind": kind, "other": other}, side_total(kind), 16)
     obls.append(Obl("side", MOD, "h_side", slices=sl, budget_s=900, per_path_s=90,
-                    desc="Side.copy(): plain face and face with Strata point data; symbolic material, lightmap, smoothing",
-                    bound="material of exact length; free ints"))
-    sl = side_slices("disp", [1], power=1, mb=1, width=16, both=True) + side_slices("disp", [0], power=1, mb=2, width=16, others=(False,))
+                    desc="Side.copy(): plain face and face with Strata point data; symbolic material, lightmap by index; every mutator",
+                    bound="material of exact length"))
+    sl = []
+    disp_cfgs = [(1, 1, True, (False, True)), (1, 2, False, (True,)), (1, 0, False, (False,))]
     if not q:
-        sl += side_slices("disp", [1], power=2, mb=1, width=24, both=True) + side_slices("disp", [2], power=1, mb=0, width=16)
+        disp_cfgs += [(2, 1, True, (False, True)), (2, 0, False, (True,))]
+    for power, mb, both, others in disp_cfgs:
+        for other in others:
+            sl += [dict(C, n=n, kind="disp", other=other, power=power, mb=mb, both_exports=both) for n in ([1] if q else [0, 1, 2])]
+            sl += _indep({"s": CONC, "n": len(CONC), "li": 2, "kind": "disp", "other": other, "power": power, "mb": mb, "both_exports": both},
+                         side_total("disp", power, mb), 12 if power == 1 else 10)
     obls.append(Obl("side_disp", MOD, "h_side", slices=sl, budget_s=1500, per_path_s=120,
                     desc="Side.copy() of a displacement: start position, flags, elevation, allowed verts, per-vertex vectors, alpha, triangle "
-                         "tags, multiblend blend/alpha/colours; both export modes", bound="power 1 (quick) / 2 (thorough)"))
-    obls.append(Obl("side.witness", MOD, "h_side_w", slices=[{"n": 1, "kind": "disp", "lo": 0, "hi": 3}], budget_s=300, per_path_s=120, witness=True))
+                         "tags, multiblend blend/alpha/colours; both export modes; every mutator (incl. localise/translate)",
+                    bound="power 1 (quick) / 1-2 (thorough)"))
+    obls.append(Obl("side.witness", MOD, "h_side_w", slices=[{"s": CONC, "n": len(CONC), "li": 0, "kind": "disp", "lo": 0, "hi": 2}], budget_s=300,
+                    per_path_s=120, witness=True))
 
     # --- Solid
-    def solid_slices(kind, n_list, width, others=(False, True), keep=(True,), power=1, mb=1):
-        m = vmf.VMF()
-        total = len(mutators(_mk_solid(m, "x", kind=kind, power=power, mb=mb)))
-        out = []
-        for n in n_list:
-            for other in others:
-                for kv in keep:
-                    if not kv and not other:
-                        pass
-                    out.append({"n": n, "kind": kind, "other": other, "keep_vis": kv, "lo": -1, "hi": 0, "power": power, "mb": mb})
-                    for lo, hi in _ranges(total, width):
-                        out.append({"n": n, "kind": kind, "other": other, "keep_vis": kv, "lo": lo, "hi": hi, "power": power, "mb": mb})
-        return out
-    sl = solid_slices("wedge", [1], 12, keep=(True, False) if not q else (True,)) + solid_slices("prism", [0], 16, others=(False,))
-    sl += solid_slices("disp", [0], 16, others=(True,) if q else (False, True))
+    def solid_total(kind, power=1, mb=1):
+        return len(mutators(_mk_solid(vmf.VMF(), "x", kind=kind, power=power, mb=mb)))
+    sl = []
+    solid_cfgs = [("wedge", False, True), ("wedge", True, True), ("prism", True, True), ("disp", False, True)]
+    if not q:
+        solid_cfgs += [("wedge", True, False), ("prism", False, True), ("disp", True, True)]
+    for kind, other, keep in solid_cfgs:
+        sl += [dict(C, n=n, kind=kind, other=other, keep_vis=keep) for n in ([1] if q else lens)]
+        sl += _indep({"s": CONC, "n": len(CONC), "li": 2, "hidden": kind == "wedge", "vs": kind != "wedge", "cordon": kind == "prism", "kind": kind,
+                      "other": other, "keep_vis": keep}, solid_total(kind), 14)
     obls.append(Obl("solid", MOD, "h_solid", slices=sl, budget_s=1500, per_path_s=120,
-                    desc="Solid.copy(): wedge, prism with point data, brush with a displacement; group, visgroups, colour, flags",
-                    bound="material of exact length; free lightmap int; symbolic hidden/vis_shown/is_cordon"))
-    obls.append(Obl("solid.witness", MOD, "h_solid_w", slices=[{"n": 1, "kind": "wedge", "lo": 0, "hi": 3}], budget_s=300, per_path_s=120, witness=True))
+                    desc="Solid.copy(): wedge, prism with point data, brush with a displacement; group, visgroups, colour, flags; every mutator",
+                    bound="material of exact length; lightmap by index; symbolic hidden/vis_shown/is_cordon in the completeness slices"))
+    obls.append(Obl("solid.witness", MOD, "h_solid_w", slices=[{"s": CONC, "n": len(CONC), "li": 0, "hidden": False, "vs": True, "cordon": False,
+                                                              "kind": "wedge", "lo": 0, "hi": 2}], budget_s=300, per_path_s=120, witness=True))
 
     # --- Entity
-    def ent_slices(slot, n_list, brush, width, others=(False, True), in_map=(False,), ks=0):
+    def ent_total(brush, ks):
         m = vmf.VMF()
         solids = [_mk_solid(m, "t", kind=brush, sid=3), _mk_solid(m, "d", kind="wedge", sid=9, fid0=40)] if brush else []
-        total = len(mutators(_mk_entity(m, "none", "", ks=ks, solids=solids)))
-        out = []
-        for n in n_list:
-            for other in others:
-                for im in in_map:
-                    base = {"n": n, "slot": slot, "brush": brush, "other": other, "in_map": im, "ks": ks}
-                    out.append(dict(base, lo=-1, hi=0))
-                    for lo, hi in _ranges(total, width):
-                        out.append(dict(base, lo=lo, hi=hi))
-        return out
-    sl = ent_slices("value", [1], "", 12) + ent_slices("fixup", [1], "", 12, others=(False,), in_map=(True,), ks=1)
-    sl += ent_slices("param", [0], "wedge", 16, others=(True,))
+        return len(mutators(_mk_entity(m, "none", "", ks=ks, solids=solids)))
+    sl = []
+    ent_cfgs = [("value", "", False, False, 0), ("fixup", "", True, True, 1), ("param", "wedge", True, False, 0)]
     if not q:
-        sl += ent_slices("comments", [2], "", 12, others=(True,)) + ent_slices("logical_pos", [1], "", 12, others=(False,))
-        sl += ent_slices("value", [0], "disp", 24, others=(False, True), in_map=(True,))
+        ent_cfgs += [("comments", "", True, False, 0), ("logical_pos", "", False, True, 1), ("value", "disp", False, True, 0),
+                     ("fixup", "disp", True, True, 1)]
+    for slot, brush, other, in_map, ks in ent_cfgs:
+        base = {"slot": slot, "brush": brush, "other": other, "in_map": in_map, "ks": ks}
+        sl += [dict(C, n=n, ti=3, **base) for n in ([1] if q else lens) if not (slot == "logical_pos" and n == 0)]
+        if not q:
+            sl += [dict(C, n=1, ti=ti, **base) for ti in (0, 1, 2, 4)]
+        sl += _indep(dict(base, s=CONC, n=len(CONC), ti=3, hidden=bool(brush), vs=not brush), ent_total(brush, ks), 14)
     obls.append(Obl("entity", MOD, "h_entity", slices=sl, budget_s=1500, per_path_s=120,
-                    desc="Entity.copy(): keys, fixups, outputs with arbitrary times, solids, editor data; in and out of the map's indexes",
-                    bound="one str leaf of exact length; free int times; symbolic hidden/vis_shown"))
-    obls.append(Obl("entity.witness", MOD, "h_entity_w", slices=[{"n": 1, "lo": 0, "hi": 3}], budget_s=300, per_path_s=120, witness=True))
-    obls.append(Obl("fixup", MOD, "h_fixup", slices=[{"n": n} for n in lens], budget_s=600, per_path_s=60,
-                    desc="EntityFixup(copy_values()) / copy.copy / copy.deepcopy are independent of the source"))
+                    desc="Entity.copy(): keys, fixups, outputs, solids, editor data; in and out of the map's indexes; same / other map; every "
+                         "mutator incl. the Entity and EntityFixup mapping operations",
+                    bound="one str leaf of exact length; times by index; symbolic hidden/vis_shown in the completeness slices"))
+    obls.append(Obl("entity.witness", MOD, "h_entity_w", slices=[{"s": CONC, "n": len(CONC), "ti": 3, "hidden": False, "vs": True, "lo": 0, "hi": 2}],
+                    budget_s=300, per_path_s=120, witness=True))
+    sl = [dict(C, n=n) for n in lens] + [{"s": CONC, "n": len(CONC), "lo": 0, "hi": 9}]
+    obls.append(Obl("fixup", MOD, "h_fixup", slices=sl, budget_s=600, per_path_s=60,
+                    desc="EntityFixup(copy_values()) / copy.copy (mapping surface only) / copy.deepcopy are independent of the source"))
 
     # --- VisGroup / EntityGroup
-    sl = [{"n": n, "depth": d, "other": o} for n in lens for d in (0, 2) for o in (False, True)]
+    sl = [dict(C, n=n, depth=d, other=o) for n in lens for d in (0, 2) for o in (False, True)]
+    sl += [{"s": CONC, "n": len(CONC), "depth": 1, "other": o, "lo": 0, "hi": 99} for o in (False, True)]
     obls.append(Obl("visgroup", MOD, "h_visgroup", slices=sl, budget_s=600, per_path_s=60,
-                    desc="VisGroup.copy(): nested groups, names, colours, group_mapping, destination map"))
+                    desc="VisGroup.copy(): nested groups, names, colours, group_mapping, destination map; every mutator"))
     obls.append(Obl("group", MOD, "h_group", slices=[{"other": False}, {"other": True}], budget_s=300, per_path_s=60, desc="EntityGroup.copy()"))
 
     # --- Keyvalues
     slots_q = ["leaf_name", "deep_value", "b_name"]
-    sl = [{"n": n, "slot": slot, "op": op} for op in KV_OPS for n in lens for slot in (slots_q if q else KV_SLOTS)
+    sl = [dict(C, n=n, slot=slot, op=op) for op in KV_OPS for n in lens for slot in (slots_q if q else KV_SLOTS)
           if not (q and n == 0 and slot != "leaf_name")]
+    sl += [{"s": "Na me", "n": 5, "slot": "leaf_name", "op": op, "lo": 0, "hi": 99} for op in KV_OPS]
     obls.append(Obl("keyvalues", MOD, "h_keyvalues", slices=sl, budget_s=900, per_path_s=60,
                     desc="Keyvalues.copy / + / += / extend with a root, a list and a single (deprecated) right operand: operands unchanged, "
-                         "result contents exact, deep independence under one mutation of any node of any of the trees",
+                         "result contents exact, no shared node; one mutation of any node of any of the trees leaves the others alone",
                     bound="one str leaf (name or value) of exact length"))
-    obls.append(Obl("keyvalues.witness", MOD, "h_keyvalues_w", slices=[{"n": 1, "slot": "leaf_name", "op": "add_list"}], budget_s=300, per_path_s=60,
-                    witness=True))
+    obls.append(Obl("keyvalues.witness", MOD, "h_keyvalues_w", slices=[{"s": "k", "n": 1, "slot": "leaf_name", "op": "add_list", "lo": 0, "hi": 2}],
+                    budget_s=300, per_path_s=60, witness=True))
 
     # --- collapse_one
-    sl = [{"n": n, "disp": d} for n in ([1] if q else [0, 1, 2]) for d in ((True,) if q else (True, False))]
+    sl = [{"n": n, "disp": d, "style": st, "vis": v, "twice": tw} for n in ([1] if q else [0, 1, 2]) for d in ((True,) if q else (True, False))
+          for st in range(3) for v in (0, 1) for tw in ((True,) if q else (False, True))]
     obls.append(Obl("collapse", MOD, "h_collapse", slices=sl, budget_s=1500, per_path_s=240,
                     desc="collapse_one leaves the instance file's map untouched; two collapses of the same file agree",
                     bound="symbolic instance name of exact length; fixup style and visgroup mode by index; once or twice"))
-    obls.append(Obl("collapse.witness", MOD, "h_collapse_w", slices=[{"n": 1}], budget_s=600, per_path_s=240, witness=True))
+    obls.append(Obl("collapse.witness", MOD, "h_collapse_w", slices=[{"n": 1, "disp": False, "style": 0, "vis": 0, "twice": False}], budget_s=600, per_path_s=240, witness=True))
 
     # --- operator purity (E2)
     obls.append(Obl("math_pure", MOD, "o_math_pure", engine="call", slices=[{}], budget_s=600, replay="replay_math_pure",
